@@ -292,7 +292,7 @@ WEIGHTS = {"scenario": 1.2, "add_edge": 6, "add_node": 4, "swap": 2.5, "paint": 
 
 
 def plan(tier, seed):
-    specs = common.session_plan(PROP, tier, seed, quick=320, thorough=6000)
+    specs = common.session_plan(PROP, tier, seed, quick=900, thorough=12000)
     # sessions starting from the empty solution
     for s in specs[: max(2, len(specs) // 5)]:
         s["empty"] = True
